@@ -228,6 +228,8 @@ def run(res, rng, tier, known):
             one(cases, rng, tier, d, rep, dts[ci % len(dts)]); ci += 1
     rng.shuffle(cases)
     run_cases(res, cases, known)
+    import einsum2lean
+    einsum2lean.check(res, "C07")      # translator tie: the three einsums per core of bilinear_form_aux, read from the current source, are the model chain bilA/bilB/bilC (Lean: rfl); C07e proves the chain is the sweep step
     qr_norm_tie(res, rng, tier)
     return {"level": LEVEL, "rule": RULE, "assumptions": ASSUMPTIONS,
             "not_by_theorem": ["norm() through the QR sweep (float; compared numerically against the exact Gram value, QR contract trusted)",
